@@ -149,6 +149,15 @@ func oracle(c acc.Case, m meta, idx int, host string, res *lib.Result) {
 	if x.Route == "status" || x.Canon == "status" {
 		need = "relay:stats"
 	}
+	if x.Route == "line" && (x.Canon == "public" || x.Canon == "session" || x.Canon == "") {
+		// not an admin / status operation: a 2xx is fine for the public resources (documentation, OPTIONS *), is C01's
+		// business for /session, and for a line that aims at nothing the model's 404 / 405 / 400 is compared in Coq
+		if o := c.Outs[xi]; x.Canon == "" && o.NoAnswer == "" && o.Status >= 200 && o.Status < 300 {
+			res.Violate(lib.Violation{Clause: "admin-only", Case: idx, Key: "admin-only:unrouted-line:" + m.class, Replay: c,
+				Detail: fmt.Sprintf("%s %s aims at no operation (by Go's own url / path libraries) and was answered %d", x.Method, x.Target, o.Status)})
+		}
+		return
+	}
 	entitled := x.Auth.ValidPrincipal(now, host) && has(scopes, need)
 	key := func(clause string) string { return clause + ":" + x.Route + ":" + m.class + "/" + part(x.Auth.Label) }
 	bad := func(clause, detail string) {
@@ -169,7 +178,7 @@ func oracle(c acc.Case, m meta, idx int, host string, res *lib.Result) {
 		}
 		bad(clause, fmt.Sprintf("answered %d to a principal without a valid token carrying %q", o.Status, need))
 	}
-	if !entitled && x.Route != "notfound" && x.Auth.ValidPrincipal(now, host) && !is2xx && o.Status != 401 {
+	if !entitled && x.Route != "notfound" && x.Route != "line" && x.Auth.ValidPrincipal(now, host) && !is2xx && o.Status != 401 {
 		bad("missing-scope-is-401", fmt.Sprintf("valid token without %q answered %d, not 401", need, o.Status))
 	}
 	if !is2xx {
@@ -377,6 +386,56 @@ func work(a lib.Args) {
 		n++
 	}
 
+	genLine := func(r *lib.Rng, ln acc.RequestLine, k int) {
+		e := mocks[r.Bool()]
+		now := int64(1600000000 + r.Intn(200000000))
+		name := "c09-" + strconv.Itoa(n)
+		adm := acc.ScopeBearer(e.Cfg.Host, now, []string{"relay:admin"})
+		bkD, bkA := "den-"+name, "alw-"+name
+		canon, _ := acc.CanonOf(ln.M, ln.T)
+		var auth acc.Bearer
+		class := ""
+		switch k % 4 {
+		case 0:
+			scope := "relay:admin"
+			if canon == "status" {
+				scope = "relay:stats"
+			}
+			auth, class = acc.ScopeBearer(e.Cfg.Host, now, []string{scope}), "exact-scope"
+			auth.Label = "good"
+		case 1:
+			auth, class = acc.SessionBearer(e.Cfg.Host, now, "abc", "bk-"+name, []string{"read", "write"}), "session"
+			auth.Label = "session-token"
+		case 2:
+			auth, class = acc.ScopeBearer(e.Cfg.Host, now, []string{"relay:admin ", "relay:stat", lookalikes[r.Intn(len(lookalikes))]}), "lookalikes"
+			if s := auth.Claims["scopes"].([]string); s[2] == "relay:stats" || s[2] == "relay:admin" {
+				auth.Claims["scopes"] = s[:2]
+			}
+			auth.Label = "good"
+		default:
+			auth, class = acc.Bearer{Kind: "none", Label: "raw:no-header"}, "no-token"
+		}
+		x := acc.Req{Route: "line", Method: ln.M, Target: ln.T, Auth: auth, Label: "request-line"}
+		if canon != "" && canon != "public" {
+			x.Canon = canon
+		} else if canon == "public" {
+			x.Canon = "public"
+		}
+		if strings.Contains(ln.T, "/bids/") && !strings.Contains(ln.T, "?") && !strings.Contains(ln.T, "#") {
+			ex := strconv.FormatInt(now+300, 10)
+			x.Bid, x.Exp = &bkA, &ex
+			x.Target += "?bid=" + bkA + "&exp=" + ex
+		}
+		ld := mkReq("listdeny", adm, "", 0)
+		la := mkReq("listallow", adm, "", 0)
+		d0 := mkReq("deny", adm, bkD, now+1000)
+		a0 := mkReq("allow", adm, bkA, now+1000)
+		ops := []acc.Op{{K: "req", Req: &d0}, {K: "req", Req: &a0}, {K: "req", Req: &ld}, {K: "req", Req: &la}, {K: "req", Req: &x}, {K: "req", Req: &ld}, {K: "req", Req: &la}}
+		cases = append(cases, acc.Case{Name: name, T0: now, Ops: ops, Cfg: e.Cfg, Mode: "mock"})
+		metas = append(metas, meta{kind: "lists", x: 4, class: class, before: []int{2, 3}, after: []int{5, 6}})
+		n++
+	}
+
 	genLookalike := func(r *lib.Rng, rt, la string) {
 		e := mocks[r.Bool()]
 		now := int64(1600000000 + r.Intn(200000000))
@@ -532,6 +591,14 @@ func work(a lib.Args) {
 					k++
 				}
 			}
+		}
+		// the request-line dimension (the Coq router decides what each line is): a third of the corner lines, with the
+		// exact scope of the endpoint the line aims at (if any), a session token, look-alike scopes or no token
+		for i, ln := range acc.LineCorners() {
+			if i%3 != 0 {
+				continue
+			}
+			genLine(rng.Fork(), ln, i/3)
 		}
 		// every look-alike spelling (ASCII and Unicode) on a list endpoint and on /status, with an otherwise good token
 		for _, la := range lookalikes {
